@@ -2,6 +2,7 @@ import Model.Engine.SkelSys
 import Model.Engine.SkelAutoGuard
 import Model.Engine.Guard
 import Lemmas.EngineGuard
+import Lemmas.SkelChain
 import Std.Data.String.ToNat
 /-! The system that interprets the regenerated skeleton (`SkelSys`), scheduled at the yield points (`RunY`), refines the
 `Guard` machine — for its three instances (idempotency keys, references, revert targets) at once: `v : VId`.
@@ -1083,5 +1084,209 @@ theorem item_step (v : VId) (ir : Nat → Bool) (sh : Shared) (s : Guard.S) (j :
               · rw [h] at ht; exact (Option.some.inj ht).symm
             rw [htt]
             exact hP.seen rfl (by rw [hhold]; rfl)
+
+-- ------------------------------------------------------------------------------------------------ the automaton on paths
+
+theorem grun_snoc (v : VId) (ep : String) (ph : GPh) (xs : Path) (x : Item) :
+    grun v ep ph (xs ++ [x]) = (grun v ep ph xs).bind (fun ph' => gstep ph' (gtok v ep x)) := by
+  induction xs generalizing ph with
+  | nil => simp [grun]; cases gstep ph (gtok v ep x) <;> simp
+  | cons y ys ih =>
+    simp only [List.cons_append, grun]
+    cases gstep ph (gtok v ep y) with
+    | none => simp
+    | some ph' => exact ih ph'
+
+theorem gacc_cons (v : VId) (ep : String) (ph : GPh) (x : Item) (rest : Path) (h : gacc v ep ph (x :: rest) = true) :
+    ∃ ph', gstep ph (gtok v ep x) = some ph' ∧ gacc v ep ph' rest = true := by
+  simp only [gacc, grun] at h
+  cases hc : gstep ph (gtok v ep x) with
+  | none => simp [hc] at h
+  | some ph' => exact ⟨ph', rfl, by simpa [gacc, hc] using h⟩
+
+theorem gacc_nil (v : VId) (ep : String) (ph : GPh) (h : gacc v ep ph [] = true) : ph.hold = .idle := by
+  simpa [gacc, grun] using h
+
+/-- no scheduling point inside a release window: an item after which the request is in a window does not end a segment -/
+theorem window_step (v : VId) (ep : String) (ph ph' : GPh) (x : Item) (h : gstep ph (gtok v ep x) = some ph')
+    (hw : window ph'.hold = true) : endsSegment x = false := by
+  cases he : endsSegment x with
+  | false => rfl
+  | true =>
+    exfalso
+    cases x with
+    | act a o via =>
+      cases a <;> simp [endsSegment] at he
+      simp only [gtok, gstep] at h
+      split at h
+      · cases h
+      · rename_i hn
+        simp only [Option.some.injEq] at h
+        subst h
+        exact hn hw
+    | fin ok cls =>
+      simp only [gtok, gstep] at h
+      split at h
+      · cases h
+      · split at h
+        · rename_i hh
+          simp only [Option.some.injEq] at h; subst h
+          rw [hh] at hw; simp [window] at hw
+        · simp only [Option.some.injEq] at h; subst h
+          simp [window] at hw
+        · cases h
+    | choose _ _ => simp [endsSegment] at he
+    | panic _ => simp [endsSegment] at he
+
+theorem sysOf_ne_idle (h : Hold) (hs : sysOf h = true) : h ≠ .idle := by
+  cases h <;> simp_all [sysOf]
+
+theorem window_of (h : Hold) (h1 : h ≠ .idle) (h2 : sysOf h = false) : window h = true := by
+  cases h with
+  | idle => exact absurd rfl h1
+  | on r b => simp only [sysOf] at h2; subst h2; rfl
+
+-- ------------------------------------------------------------------------------------------------ the global invariant
+
+/-- the coupling between the commander (scheduled at the yield points) and the machine of view `v` -/
+structure GInv (v : VId) (ir : Nat → Bool) (y : YState) (s : Guard.S) : Prop where
+  /-- the machine's persisted entries are the store's logs, with the view's keys -/
+  dur : s.durable.map (fun e => (e.key, e.id)) = y.st.sh.store.map (fun l => (v.keyOf l, l.id))
+  /-- its queued entries are the batcher's queue -/
+  pend : s.pending = y.st.sh.queue.map (entryOf v)
+  nodup : (y.st.procs.map (·.job.a)).Nodup
+  sinv : SInv v y.st.sh
+  procs : ∀ p ∈ y.st.procs, p.alive = true → ∃ ph, grun v p.job.ep (ginit v p.job.ep) p.done = some ph ∧
+    gacc v p.job.ep ph p.todo = true ∧ PInv v ir y.st.sh s p.job p.regs ph ∧
+    (window ph.hold = true → y.running = some p.job.a)
+  /-- what the referencer holds, the machine holds -/
+  g1 : ∀ k b, (v.K, k, b) ∈ y.st.sh.held → (k, b) ∈ s.held
+  /-- what the machine holds, the referencer holds — except for the running request, which may be in its release window -/
+  g2 : ∀ k b, (k, b) ∈ s.held → (v.K, k, b) ∈ y.st.sh.held ∨ y.running = some b
+  g3 : ∀ k b, (k, b) ∈ s.held → b ∈ y.st.procs.map (·.job.a)
+  q2 : ∀ q ∈ y.st.sh.queue, q.1 ∈ y.st.procs.map (·.job.a)
+
+theorem other_pinv (v : VId) (ir : Nat → Bool) (sh sh' : Shared) (s s' : Guard.S) (q : Proc) (phq : GPh) (a : Nat)
+    (hne : q.job.a ≠ a) (hQ : PInv v ir sh s q.job q.regs phq)
+    (fh : ∀ k b, b ≠ a → ((k, b) ∈ s'.held ↔ (k, b) ∈ s.held))
+    (fm : ∀ k b, b ≠ a → (b, k) ∈ s.missed → (b, k) ∈ s'.missed)
+    (fs : ∀ K k b, b ≠ a → ((K, k, b) ∈ sh'.held ↔ (K, k, b) ∈ sh.held))
+    (fst : sh'.store = sh.store) (fq : ∀ x ∈ sh'.queue, x ∈ sh.queue ∨ x.1 = a) :
+    PInv v ir sh' s' q.job q.regs phq :=
+  pinv_congr v ir sh sh' s s' q.job q.regs q.regs phq hQ (fun k => fh k _ hne) (fun k => fm k _ hne)
+    (fun k => fs _ k _ hne) (fun t h => by rw [fst]; exact h)
+    (fun x hx hxa => (fq x hx).resolve_right (fun h => hne (hxa.symm.trans h))) rfl rfl (.inl rfl)
+
+theorem ginit_pinv (v : VId) (ir : Nat → Bool) (sh : Shared) (s : Guard.S) (j : Job) (hj : JobOkV ir v j)
+    (h1 : ∀ k, (k, j.a) ∉ s.held) (h2 : ∀ k, (v.K, k, j.a) ∉ sh.held) (h3 : ∀ q ∈ sh.queue, q.1 ≠ j.a) :
+    PInv v ir sh s j {} (ginit v j.ep) := by
+  refine ⟨hj, ?_, ?_, ?_, ?_, ?_, fun _ => h3, ?_, ?_⟩
+  · intro k; simp [ginit, h1 k]
+  · intro k; simp [ginit, sysOf, h2 k]
+  · intro b hb; simp [ginit] at hb
+  · intro b hb; simp [ginit] at hb
+  · intro _ hs; simp [ginit, seenOf] at hs
+  · intro hm
+    cases v with
+    | ik => simp [VId.keyOf, Job.content]
+    | ref =>
+      simp only [ginit, decide_eq_false_iff_not] at hm
+      have : j.req.kind ≠ .create := fun h => hm (hj h)
+      simp [VId.keyOf, Job.content, this]
+    | rev =>
+      simp only [ginit, decide_eq_false_iff_not] at hm
+      have : j.req.kind ≠ .revert := fun h => hm (hj.1.1 h)
+      simp [VId.keyOf, Job.content, this, Guard.revKey]
+  · intro l hl; cases hl
+
+/-- **the step lemma**: whatever the commander does next under the yield-point discipline, the machine accepts the
+events and the coupling is kept -/
+theorem stepY_inv (v : VId) (ir : Nat → Bool) (adm : Job → Path → Prop)
+    (hadm : ∀ j p, adm j p → gacc v j.ep (ginit v j.ep) p = true ∧ JobOkV ir v j)
+    (y y' : YState) (evs : List Ev) (h : StepY adm y evs y') (s : Guard.S) (hi : GInv v ir y s) :
+    ∃ s', runOn (gm v ir) s evs = .ok s' ∧ GInv v ir y' s' := by
+  cases h with
+  | item pre post j rg dn x rest hp hen hrun =>
+    have hmemP : (⟨j, rg, dn, true, x :: rest⟩ : Proc) ∈ y.st.procs := by rw [hp]; simp
+    obtain ⟨ph, hdone, hacc, hP, hwin⟩ := hi.procs _ hmemP rfl
+    obtain ⟨ph', hph, hacc'⟩ := gacc_cons v j.ep ph x rest hacc
+    have g2' : ∀ k b, b ≠ j.a → (k, b) ∈ s.held → (v.K, k, b) ∈ y.st.sh.held := by
+      intro k b hb hm
+      rcases hi.g2 k b hm with h | h
+      · exact h
+      · rcases hrun with h' | h' <;> rw [h'] at h
+        · cases h
+        · exact absurd (Option.some.inj h).symm hb
+    obtain ⟨s', hq, hpend', hP', hS'⟩ :=
+      item_step v ir y.st.sh s j rg x ph ph' hen hph hP hi.dur hi.pend hi.sinv hi.g1 g2'
+    obtain ⟨fh, fm, fd⟩ := run_frame (v.view ir) j.a _ s s' hq (evs_actor v ir y.st.sh j rg x)
+    have hwin' : window ph'.hold = true → (if endsSegment x || rest.isEmpty then none else some j.a) = some j.a := by
+      intro hw
+      have h1 := window_step v j.ep ph ph' x hph hw
+      have h2 : rest.isEmpty = false := by
+        cases rest with
+        | nil => have := gacc_nil v j.ep ph' hacc'; rw [this] at hw; simp [window] at hw
+        | cons _ _ => rfl
+      simp [h1, h2]
+    have hnd := hi.nodup
+    rw [hp] at hnd
+    have hmap : (pre ++ (⟨j, effRg y.st.sh j rg x, dn ++ [x], true, rest⟩ : Proc) :: post).map (·.job.a) =
+        y.st.procs.map (·.job.a) := by rw [hp]; simp
+    have hothers : ∀ q, q ∈ pre ∨ q ∈ post → q.alive = true → ∃ phq, grun v q.job.ep (ginit v q.job.ep) q.done = some phq ∧
+        gacc v q.job.ep phq q.todo = true ∧ PInv v ir (effSh y.st.sh j rg x) s' q.job q.regs phq ∧
+        (window phq.hold = true → (if endsSegment x || rest.isEmpty then none else some j.a) = some q.job.a) := by
+      intro q hq' hal
+      have hne : q.job.a ≠ j.a := ChainRef.others_ne pre post ⟨j, rg, dn, true, x :: rest⟩ q hnd hq'
+      obtain ⟨phq, c1, c2, c3, c4⟩ := hi.procs q (by rw [hp]; rcases hq' with h | h <;> simp [h]) hal
+      refine ⟨phq, c1, c2, other_pinv v ir y.st.sh _ s s' q phq j.a hne c3 fh fm
+        (fun K k b hb => effSh_held_frame y.st.sh j rg x K k b hb) (effSh_store ..) (effSh_queue_mem y.st.sh j rg x), ?_⟩
+      intro hw
+      have := c4 hw
+      rcases hrun with h' | h' <;> rw [h'] at this
+      · cases this
+      · exact absurd (Option.some.inj this).symm hne
+    refine ⟨s', hq, ⟨?_, hpend', ?_, hS', ?_, ?_, ?_, ?_, ?_⟩⟩
+    · show s'.durable.map _ = (effSh y.st.sh j rg x).store.map _
+      rw [fd, effSh_store]; exact hi.dur
+    · show ((pre ++ _ :: post).map (·.job.a)).Nodup
+      rw [hmap]; exact hi.nodup
+    · intro q hq' hal
+      simp only [List.mem_append, List.mem_cons] at hq'
+      rcases hq' with hq' | rfl | hq'
+      · exact hothers q (.inl hq') hal
+      · exact ⟨ph', by simp [grun_snoc, hdone, hph], hacc', hP', hwin'⟩
+      · exact hothers q (.inr hq') hal
+    · intro k b hm
+      show (k, b) ∈ s'.held
+      have hm' : (v.K, k, b) ∈ (effSh y.st.sh j rg x).held := hm
+      by_cases hb : b = j.a
+      · subst hb
+        obtain ⟨h1, h2⟩ := (hP'.sys k).1 hm'
+        exact (hP'.held k).2 ⟨sysOf_ne_idle _ h1, h2⟩
+      · exact (fh k b hb).2 (hi.g1 k b ((effSh_held_frame y.st.sh j rg x v.K k b hb).1 hm'))
+    · intro k b hm
+      show (v.K, k, b) ∈ (effSh y.st.sh j rg x).held ∨ (if endsSegment x || rest.isEmpty then none else some j.a) = some b
+      by_cases hb : b = j.a
+      · subst hb
+        obtain ⟨h1, h2⟩ := (hP'.held k).1 hm
+        cases hs : sysOf ph'.hold with
+        | true => exact .inl ((hP'.sys k).2 ⟨hs, h2⟩)
+        | false => exact .inr (hwin' (window_of _ h1 hs))
+      · exact .inl ((effSh_held_frame y.st.sh j rg x v.K k b hb).2 (g2' k b hb ((fh k b hb).1 hm)))
+    · intro k b hm
+      show b ∈ (pre ++ _ :: post).map (·.job.a)
+      rw [hmap]
+      by_cases hb : b = j.a
+      · subst hb; rw [hp]; simp
+      · exact hi.g3 k b ((fh k b hb).1 hm)
+    · intro q hq'
+      show q.1 ∈ (pre ++ _ :: post).map (·.job.a)
+      rw [hmap]
+      rcases effSh_queue_mem y.st.sh j rg x q hq' with h | h
+      · exact hi.q2 q h
+      · rw [h, hp]; simp
+  | gate n ok h0 hn hrun => sorry
+  | crash => sorry
+  | arrive j p hfresh hadm' => sorry
 
 end Engine.Skel.GuardRef
